@@ -275,6 +275,58 @@ def add_witnesses(bpath):
     return dict(count=n, goals=sorted(goals))
 
 
+def boundary_scripts(path):
+    """Hand-written boundary scripts for TestCoreScripts (boundaries that neither TLC's small instances nor the random drives reach).
+    Family 'frag-count': a message of 254 / 255 / 256 / 257 fragments (the fragment counter is one byte: KCP.Send refuses more
+    than 255 fragments with -2; PeekSize's 'frg + 1' is uint8 arithmetic), sent through a send window of 32 so that the message
+    arrives in batches while the reader polls Recv."""
+    scripts = []
+
+    def rounds(n, interval):
+        acts = []
+        for _ in range(n):
+            acts.append(dict(name="Flush", e=1))
+            acts += [dict(name="DeliverAny")] * 40
+            acts += [dict(name="Recv", e=2, a=70000)] * 3
+            acts.append(dict(name="Flush", e=2))
+            acts += [dict(name="DeliverAny")] * 40
+            acts.append(dict(name="Recv", e=1, a=70000))
+            acts.append(dict(name="Tick", a=interval))
+        return acts
+    for stream in (0, 1):
+        for mss in (1, 3):
+            for frags in (254, 255, 256, 257):
+                for extra in (0, 1):
+                    n = (frags - 1) * mss + (1 if extra else mss)   # exactly `frags` fragments; the last one short or full
+                    cfg = dict(mtu=24 + mss, sndwnd=32, rcvwnd=300, nodelay=1, interval=10, resend=2, nc=1, stream=stream, acknodelay=0)
+                    acts = [dict(name="Send", e=1, a=5), dict(name="Send", e=1, a=n), dict(name="Send", e=1, a=2)]
+                    acts += rounds(14, 10)
+                    scripts.append(dict(meta=dict(cfg=cfg, label="frag-count-%d%s" % (frags, "-stream" if stream else "")), actions=acts))
+    # Family 'forged-frg': the fragment byte is not authenticated. A peer sends fragment trains whose frg bytes are inconsistent
+    # (first byte smaller / larger than the distance to the next frg = 0, non-monotone, 255); they are accepted in order into
+    # rcv_queue and the application reads with the raw-core idiom (a buffer of exactly PeekSize() bytes) and with a large buffer.
+    # PeekSize and Recv must agree on where a message ends whatever the bytes say (no panic, no read past the buffer).
+    def push(frg, ln):
+        return dict(name="Forge", e=2, f=dict(cmd=81, frg=frg, wnd=32, dts=0, dsn=0, duna=0, len=ln, bad=0))
+    trains = [(1, 1, 0), (0, 2, 1, 0), (2, 0, 1, 0), (3, 1, 0), (1, 2, 0), (255, 0), (2, 2, 2, 0), (1, 0, 1, 0), (4, 3, 2, 1), (2, 1, 0, 2, 1, 0)]
+    for stream in (0, 1):
+        for ti, train in enumerate(trains):
+            for reader in ("RecvPeek", "Recv"):
+                cfg = dict(mtu=124, sndwnd=32, rcvwnd=32, nodelay=1, interval=10, resend=2, nc=1, stream=stream, acknodelay=0)
+                acts = []
+                for k, frg in enumerate(train):
+                    acts.append(push(frg, 10 + 7 * k))
+                    if k % 2 == 1:
+                        acts.append(dict(name=reader, e=2, a=70000))
+                acts += [dict(name=reader, e=2, a=70000)] * (len(train) + 1)
+                acts += [dict(name="Flush", e=2), dict(name="Tick", a=10)]
+                scripts.append(dict(meta=dict(cfg=cfg, label="forged-frg-%d%s-%s" % (ti, "-stream" if stream else "", reader), forged=True), actions=acts))
+    with open(path, "w") as f:
+        for sc in scripts:
+            f.write(json.dumps(sc) + "\n")
+    return len(scripts)
+
+
 def sample_behaviour(path):
     with open(path) as f:
         ln = f.readline()
@@ -312,11 +364,13 @@ def generic_core_check(prop, tier, replay, level, mc_list, sim_list, go_tests, i
             raise MachineryError("TLC generated no behaviours")
         v.notes["generated_behaviours"] = nb
         v.notes["goal_witnesses"] = add_witnesses(bpath)
+        if "TestCoreScripts" in go_tests:
+            v.notes["boundary_scripts"] = boundary_scripts(os.path.join(ind, "core_scripts.ndjson"))
         # 3./4. REPLAY + DRIVE
         env = dict(VERIF_IN=ind, VERIF_OUT=outd, CORE_RUNS=120 if thorough else 24, CORE_STEPS=1500 if thorough else 600)
         env.update(extra_env or {})
         go_core(scr, go_tests, env)
-        names = [n for n in ("core_replay", "core_drive", "core_clean", "core_stall", "core_pairs", "core_fates") if os.path.exists(os.path.join(outd, n + ".ndjson"))]
+        names = [n for n in ("core_replay", "core_drive", "core_clean", "core_stall", "core_pairs", "core_fates", "core_scripts") if os.path.exists(os.path.join(outd, n + ".ndjson"))]
         summarize(v, outd, names)
         # 5. TV
         for n in names:
@@ -370,7 +424,7 @@ def check_c01(tier, replay):
                 ("fast", sim_cfg("fast", 80, ticks="{1, 10, 30}")), ("fastcc", sim_cfg("fastcc", 80, ticks="{1, 10, 30}")),
                 ("wnd1", sim_cfg("wnd1", 80))]
     return generic_core_check(
-        "C01", tier, replay, "model_checking", mc, sim, "TestCoreReplay$|TestCoreDrive$", inv,
+        "C01", tier, replay, "model_checking", mc, sim, "TestCoreReplay$|TestCoreDrive$|TestCoreScripts$", inv,
         rule=("TLC-generated behaviours of KcpNet (random drops, duplicates, reordering, writes 1..100 B, reads 16..200 B, five "
               "configurations) replayed on two real KCP objects at offset 0 and at offsets near 2^31/2^32, plus seeded random "
               "lossy runs with realistic windows/MTUs; every Recv's bytes are compared with the writer's stream. Non-trivial = "
@@ -410,7 +464,8 @@ def check_c04(tier, replay):
               "una before/inside/beyond the send window, wnd 0/1/65535, forged ts, bad conv/len/cmd) both in the TLC model and in "
               "random runs; invariants evaluated on the observed state after every API call and datagram, admission checked at "
               "the flush hook. Non-trivial as C01, or containing a forged segment"),
-        assumptions=["windows are set before traffic starts", "rcv_wnd <= 65535"])
+        assumptions=["windows are set before traffic starts", "rcv_wnd <= 65535"],
+        sess=dict(invariants=["C04_WriteAdmission", "C04_SessBounds", "C01_ReadIsNextBytes"], runs=100))
 
 
 # C12
